@@ -78,6 +78,15 @@ fn main() {
         println!("{}", json!({"total": total, "distinct": all.len()}));
         return;
     }
+    if cmd == "artefacts" {
+        // fresh-process artefact digest of a source file (C15, C19)
+        silence_stderr();
+        engine::panics::install_hook();
+        let src = std::fs::read_to_string(&pos[0]).expect("read source");
+        let a = runners::artefacts::compile_artefacts(&src, m.contains_key("sched"), true);
+        println!("{}", json!({"digest": a.digest(), "texts": a.texts}));
+        return;
+    }
     if cmd == "diag" {
         // debugging aid: print front-end diagnostics and VM/WASM outputs of a source file
         let src = std::fs::read_to_string(&pos[0]).expect("read source");
